@@ -4,6 +4,7 @@ clauses on times measured around the real startScanEngine + real packet engine),
 import os
 import vf
 from checks import c07
+from checks import wire_tier as wt
 
 LEVEL = "model_checking"
 LEVEL_TEXT = ("TLC checks the explicit-time model Runner (send phase, done, delay timer, cancel, receiver, result queue, logger, return; every "
@@ -58,5 +59,10 @@ def run(ctx):
     ctx.count(0, [("run", i) for i in range(n1)])
     for r0 in vf.split_runs(vf.read_ndjson(tb))[:4]:
         ctx.sample(r0)
+    # socket-level tier: --exit-delay of every packet command, per chunk of a chunked port scan, late replies on the wire
+    n3, rej = wt.run_wire(ctx, select=lambda s: s["expect"]["kind"] == "packet", label="c16w", focus="delay")
+    wt.report(ctx, "C16", rej)
+    n4, rej = wt.run_wire(ctx, select=lambda s: s["expect"]["kind"] == "packet" and "chunked" in s["name"], label="c16r", focus="reply")
+    wt.report(ctx, "C16", rej)
     ctx.assumptions += ["upper bound on exit: 3 s after the run context was observed cancelled",
                         "late-reply clause only for replies delivered at <= 0.5 of a delay >= 600 ms (>= 300 ms of slack for the result path)"]
